@@ -139,6 +139,8 @@ def _note_ok(e, fn, call_args):
             continue
         ok = True
         for p, v in call_args:
+            if p == "res":
+                continue  # the Resources object pipefunc itself injects (resources_variable) is not an argument of the caller
             if f"{p}=" not in n:
                 ok = False
                 break
